@@ -28,7 +28,9 @@ def run(pid, spec, out):
         )
         logging.getLogger("claripy").setLevel(logging.CRITICAL)
         if spec.get("kind") == "replay":
-            mod.replay(spec["witness"], res)
+            from .result import big_restore
+
+            mod.replay(big_restore(spec["witness"]), res)
         else:
             mod.run_shard(spec, res)
     except MemoryError:
